@@ -17,11 +17,24 @@ _welem = z3.Concat(_al_h, z3.Star(_alnum_h))                  # well-known bus n
 _uelem = z3.Plus(_alnum_h)                                    # unique connection name element
 _max255 = z3.Loop(S.CH, 0, 255)
 
-INTERFACE = z3.Intersect(z3.Concat(_elem, z3.Plus(z3.Concat(_dot, _elem))), _max255)
+INTERFACE0 = z3.Concat(_elem, z3.Plus(z3.Concat(_dot, _elem)))
+MEMBER0 = _elem
+BUS0 = z3.Union(z3.Concat(S.lit(':'), _uelem, z3.Plus(z3.Concat(_dot, _uelem))),
+                z3.Concat(_welem, z3.Plus(z3.Concat(_dot, _welem))))
+INTERFACE = z3.Intersect(INTERFACE0, _max255)
 ERROR = INTERFACE
-MEMBER = z3.Intersect(_elem, _max255)
-BUS = z3.Intersect(z3.Union(z3.Concat(S.lit(':'), _uelem, z3.Plus(z3.Concat(_dot, _uelem))),
-                            z3.Concat(_welem, z3.Plus(z3.Concat(_dot, _welem)))), _max255)
+MEMBER = z3.Intersect(MEMBER0, _max255)
+BUS = z3.Intersect(BUS0, _max255)
+
+
+def in_grammar(t, base, bounded=True):
+    """t in L(base) and (if bounded) at most 255 characters.  For a string VARIABLE in regular mode the
+    length test is the shared opaque atom of pyvc.strings.len_le_atom (see there)."""
+    if not bounded:
+        return z3.InRe(t, base)
+    if S.REGULAR_MODE and S.regular_var(t):
+        return z3.And(z3.InRe(t, base), S.len_le_atom(t, 255))
+    return z3.InRe(t, z3.Intersect(base, _max255))
 OBJECT_PATH = z3.Union(S.lit('/'), z3.Plus(z3.Concat(S.lit('/'), z3.Plus(_alnum))))
 
 PY = {
